@@ -125,6 +125,9 @@ class Compiler:
         sid = self.ex.sid(s.srcinfo)
         kind = type(s).__name__
         self.nodes[(sid, kind)] = s
+        if not isinstance(s, (LoopIR.If, LoopIR.For, LoopIR.Pass)):
+            # values of all index / size / condition expressions of the leaf, in slot order (c12_export.leaf_slots)
+            self.emit(ind, "_s = (%s)" % "".join(self.ce(e) + "," for e in self.ex.leaf_slots(s)))
         if isinstance(s, LoopIR.Pass):
             self.emit(ind, "pass")
         elif isinstance(s, (LoopIR.Assign, LoopIR.Reduce)):
@@ -133,17 +136,17 @@ class Compiler:
             self.emit(ind, "_i = %s; _v = %s" % (idx, self.cd(s.rhs)))
             if isinstance(s, LoopIR.Reduce):
                 self.emit(ind, "_v = _arith('+', _rd(M, %r, _i), _v)" % nm)
-            self.emit(ind, "M[(%r, _i)] = _v; TR.append((%d, %r, %r, _i, _v))" % (nm, sid, kind, nm))
+            self.emit(ind, "M[(%r, _i)] = _v; TR.append((%d, %r, %r, _i, _v, _s))" % (nm, sid, kind, nm))
         elif isinstance(s, LoopIR.WriteConfig):
             k = (s.config.name(), s.field)
-            self.emit(ind, "_v = %s; cfg[%r] = _v; TR.append((%d, 'WriteConfig', %r, _v))" % (self.cd(s.rhs), k, sid, k))
+            self.emit(ind, "_v = %s; cfg[%r] = _v; TR.append((%d, 'WriteConfig', %r, _v, _s))" % (self.cd(s.rhs), k, sid, k))
         elif isinstance(s, LoopIR.WindowStmt):
-            self.emit(ind, "TR.append((%d, 'WindowStmt', %r, %s))" % (sid, repr(s.name), self.cd(s.rhs)))
+            self.emit(ind, "TR.append((%d, 'WindowStmt', %r, %s, _s))" % (sid, repr(s.name), self.cd(s.rhs)))
         elif isinstance(s, LoopIR.Call):
             args = "(%s)" % "".join(self.cd(a) + "," for a in s.args)
-            self.emit(ind, "TR.append((%d, 'Call', %r, %s))" % (sid, s.f.name, args))
+            self.emit(ind, "TR.append((%d, 'Call', %r, %s, _s))" % (sid, s.f.name, args))
         elif isinstance(s, LoopIR.Alloc):
-            self.emit(ind, "TR.append((%d, 'Alloc', %r, %s))" % (sid, repr(s.name), self.ct(s.type)))
+            self.emit(ind, "TR.append((%d, 'Alloc', %r, %s, _s))" % (sid, repr(s.name), self.ct(s.type)))
         elif isinstance(s, LoopIR.If):
             self.ctrl.add((sid, kind))
             self.emit(ind, "_c = %s" % self.ce(s.cond))
